@@ -34,6 +34,10 @@ Definition ROOT_MAX : nat := 20.                            (* find_root max=20 
 Section Gen.
   Variable X : Type.
   Variable N : num X.
+  (* the two lines of decay_time whose form is read from the source (Gen/ActivationDat.v):
+     early exit "f(0) < target" (true) or "f(0) <= 0" (false);
+     derivative "sum(La*Ia*(To-1)*exp(..))" (true) or "-sum(La*Ia*exp(..))" (false) *)
+  Variables (early_vs_target df_rest_factor : bool).
   Notation "a +: b" := (nadd X N a b) (at level 50, left associativity).
   Notation "a -: b" := (nsub X N a b) (at level 50, left associativity).
   Notation "a *: b" := (nmul X N a b) (at level 40, left associativity).
@@ -66,7 +70,15 @@ Section Gen.
     | [] => Ok acc
     | (Ia, La) :: r => do e <- sexp (nneg X N (La *: (t -: To))) ;; dfsum r To t (acc +: La *: Ia *: (To -: q 1) *: e)
     end.
-  Definition df (data : list (X * X)) (To t : X) : res X := dfsum data To t (q 0).
+  (* -sum(La*Ia*exp(-La*(t-To)) for Ia, La in data) *)
+  Fixpoint dfsum' (data : list (X * X)) (To t acc : X) : res X :=
+    match data with
+    | [] => Ok acc
+    | (Ia, La) :: r => do e <- sexp (nneg X N (La *: (t -: To))) ;; dfsum' r To t (acc +: La *: Ia *: e)
+    end.
+  Definition df (data : list (X * X)) (To t : X) : res X :=
+    if df_rest_factor then dfsum data To t (q 0)
+    else do s <- dfsum' data To t (q 0) ;; Ok (nneg X N s).
 
   (* find_root: fx = f(x); for _ in range(max): if abs(f(x)) < tol: break; x -= fx/df(x); fx = f(x) *)
   Fixpoint find_root_loop (data : list (X * X)) (To target : X) (fuel : nat) (x fx : X) : res (X * X) :=
@@ -104,7 +116,8 @@ Section Gen.
   (* decay_time after "data" and "To" have been extracted *)
   Definition decay_time_core (data : list (X * X)) (To target : X) : res (dt X) :=
     do f0 <- f data To target (q 0) ;;
-    dec (lt f0 target) (fun below =>
+    dec (if early_vs_target then lt f0 target
+         else match lt (q 0) f0 with Some b => Some (negb b) | None => None end) (fun below =>
       if below then Ok RetZero else
       do x0 <- initial_guess To target data ;;
       do tf <- find_root data To target x0 ;;
@@ -123,12 +136,12 @@ Definition min_rest (rest : list Q) : option (nat * Q) :=
   match rest with [] => None | x :: r => Some (argmin r 1 (0%nat, x)) end.
 
 (* Sample.decay_time: products = (half-life, activities per rest time) *)
-Definition decay_time (X : Type) (N : num X) (products : list (Q * list Q)) (rest : list Q) (target : Q) : res (dt X) :=
+Definition decay_time (X : Type) (N : num X) (ev df : bool) (products : list (Q * list Q)) (rest : list Q) (target : Q) : res (dt X) :=
   match min_rest rest, products with
   | None, _ | _, [] => Ok RetZero
   | Some (i, To), _ =>
       let data := map (fun p => (nQ X N (nth i (snd p) 0%Q), ndiv X N (nln2 X N) (nQ X N (fst p)))) products in
-      decay_time_core X N data (nQ X N To) (nQ X N target)
+      decay_time_core X N ev df data (nQ X N To) (nQ X N target)
   end.
 
 (* ------------------------------------------------------------------ the reals *)
